@@ -36,8 +36,8 @@ TOL_DB = 1e-6
 
 
 def plan(tier, seed):
-    n = 4 if tier == "quick" else 75
-    k = 12 if tier == "quick" else 16
+    n = 5 if tier == "quick" else 150
+    k = 16
     return [{"name": "bss-%d" % p, "n": n, "part": p} for p in range(k)]
 
 
